@@ -80,9 +80,69 @@ pub fn in_replay(case: &Case) -> Value {
     json!({"engine": "IN", "case": case.to_value()})
 }
 
+thread_local! {
+    /// the cases this thread judged most recently (oldest first)
+    static RECENT: std::cell::RefCell<std::collections::VecDeque<Case>> = const { std::cell::RefCell::new(std::collections::VecDeque::new()) };
+}
+const CHAIN: usize = 3;
+
+/// Judges `chain` (results discarded) and then `case` on a thread that never ran the library.
+fn on_fresh_thread(judge: Judge, chain: Vec<Case>, case: Case) -> Acc {
+    std::thread::Builder::new()
+        .stack_size(16 << 20)
+        .spawn(move || {
+            let mut scratch = Acc::default();
+            for c in &chain {
+                judge_plain(judge, c, &mut scratch);
+            }
+            let mut acc = Acc::default();
+            judge_plain(judge, &case, &mut acc);
+            acc
+        })
+        .expect("spawn")
+        .join()
+        .unwrap_or_default()
+}
+
+/// The judged operations are functions of their arguments, so a verdict must not depend on what
+/// the pool thread evaluated before.  A violation whose signature is new to this accumulator is
+/// therefore re-judged alone on a fresh thread; if it does not show there, it is re-judged after
+/// the thread's most recent cases (a state the library kept from an earlier call), and the replay
+/// artefact then carries that chain: `{engine: IN, chain: [...], case}`.
+pub fn judge_guarded(judge: Judge, case: &Case, acc: &mut Acc) {
+    let mut local = Acc::default();
+    judge_plain(judge, case, &mut local);
+    let fresh: Vec<String> = local.violations.keys().filter(|k| !acc.violations.contains_key(*k)).cloned().collect();
+    if !fresh.is_empty() {
+        let alone = on_fresh_thread(judge, vec![], case.clone());
+        let missing: Vec<&String> = fresh.iter().filter(|k| !alone.violations.contains_key(*k)).collect();
+        if !missing.is_empty() {
+            let chain: Vec<Case> = RECENT.with(|r| r.borrow().iter().cloned().collect());
+            let chained = on_fresh_thread(judge, chain.clone(), case.clone());
+            for k in missing {
+                if chained.violations.contains_key(k) {
+                    if let Some((v, _)) = local.violations.get_mut(k) {
+                        v.replay = json!({"engine": "IN", "chain": chain.iter().map(|c| c.to_value()).collect::<Vec<_>>(), "case": case.to_value()});
+                        v.what = format!("{} [only after earlier calls on the same thread: the replay judges {} earlier case(s) first]", v.what, chain.len());
+                    }
+                }
+            }
+        }
+    }
+    RECENT.with(|r| {
+        let mut r = r.borrow_mut();
+        if r.len() == CHAIN {
+            r.pop_front();
+        }
+        r.push_back(case.clone());
+    });
+    let a = std::mem::take(acc);
+    *acc = a.merge(local);
+}
+
 /// Judge one case with the subject guarded: a panic of the library inside a judgement is a C01
 /// matter; it is recorded against C01 and blocks (does not decide) the property being checked.
-pub fn judge_guarded(judge: Judge, case: &Case, acc: &mut Acc) {
+pub fn judge_plain(judge: Judge, case: &Case, acc: &mut Acc) {
     let _w = watch(case);
     let mut local = Acc::default();
     match guarded(|| judge(case, &mut local)) {
@@ -139,8 +199,15 @@ pub fn replay(prop: &str, rp: &Value) -> Vec<Violation> {
                 eprintln!("MACHINERY-FAILURE: {prop} has no input-space judge");
                 std::process::exit(2)
             };
-            let mut acc = Acc::default();
-            judge_guarded(j, &case, &mut acc);
+            let chain: Vec<Case> = match rp.get("chain") {
+                Some(c) => serde_json::from_value(c.clone()).unwrap_or_else(|e| {
+                    eprintln!("MACHINERY-FAILURE: bad replay chain: {e}");
+                    std::process::exit(2)
+                }),
+                None => vec![],
+            };
+            // always on a thread that never ran the library, so that one replay cannot prime another
+            let acc = on_fresh_thread(j, chain, case);
             acc.violations.into_values().map(|(v, _)| v).collect()
         }
         Some("SM") => crate::engine_sm::replay(prop, rp),
